@@ -293,10 +293,10 @@ func storesToCell(cell *ssa.Alloc) []*ssa.Store {
 
 // OriginOpts tunes the backward value walk.
 type OriginOpts struct {
-	Depth       int  // how many static module callees' returns to descend into
-	Dynamic     bool // also descend into interface/dynamic calls when every call-graph callee is a module function
+	Depth       int                             // how many static module callees' returns to descend into
+	Dynamic     bool                            // also descend into interface/dynamic calls when every call-graph callee is a module function
 	StopAt      func(callee *ssa.Function) bool // do not descend into these callees: their call is a leaf
-	ThroughCall func(c *ssa.Call) []ssa.Value // optional: treat a call as a pass-through of these operands
+	ThroughCall func(c *ssa.Call) []ssa.Value   // optional: treat a call as a pass-through of these operands
 }
 
 // origins walks v backwards to its sources. Leaves are: *ssa.Parameter, *ssa.Const, *ssa.Call
